@@ -6,6 +6,7 @@
 
 mod eyesim;
 mod framework;
+mod poolsim;
 mod rng;
 mod simrt;
 
@@ -82,6 +83,10 @@ fn run_part<S: Scenario>(sc: &S, cfg: &RunCfg, known: &KnownFindings, verdict: &
     Part { engine: sc.engine(), info: sc.info(), stats }
 }
 
+fn leak(s: &str) -> &'static str {
+    Box::leak(s.to_string().into_boxed_str())
+}
+
 fn level_of(property: &str) -> &'static str {
     match property {
         "C08" | "C09" | "C12" => "fault_enumeration",
@@ -108,6 +113,10 @@ fn check(args: &Args) -> i32 {
         "C10" | "C11" => {
             let sc = eyesim::EyeSim { property: if property == "C10" { "C10" } else { "C11" } };
             parts.push(run_part(&sc, &cfg("eyesim"), &known, &mut verdict));
+        }
+        "C02" | "C03" | "C04" | "C05" | "C06" | "C14" | "C15" | "C17" | "C19" => {
+            let sc = poolsim::PoolSim { property: leak(property) };
+            parts.push(run_part(&sc, &cfg("poolsim"), &known, &mut verdict));
         }
         _ => {
             eprintln!("HARNESS-ERROR: no check registered for property {}", property);
@@ -189,6 +198,7 @@ fn replay(args: &Args) -> i32 {
     let rf = read_replay(&PathBuf::from(&args.target));
     match rf.engine.as_str() {
         "eyesim" => replay_with(&eyesim::EyeSim { property: "C10" }, &rf, args.machine),
+        "poolsim" => replay_with(&poolsim::PoolSim { property: leak(&rf.property) }, &rf, args.machine),
         other => {
             eprintln!("HARNESS-ERROR: unknown engine {} in replay file", other);
             2
@@ -213,6 +223,9 @@ fn determinism_with<S: Scenario>(sc: &S, args: &Args) -> i32 {
 fn determinism(args: &Args) -> i32 {
     match args.target.as_str() {
         "C10" | "C11" | "eyesim" => determinism_with(&eyesim::EyeSim { property: "C10" }, args),
+        "C02" | "C03" | "C04" | "C05" | "C06" | "C14" | "C15" | "C17" | "C19" => {
+            determinism_with(&poolsim::PoolSim { property: leak(&args.target) }, args)
+        }
         other => {
             eprintln!("HARNESS-ERROR: unknown target {}", other);
             2
